@@ -19,7 +19,7 @@ func TestSmokeATRollback(t *testing.T) {
 	if _, err := e.Bare.Exec("CREATE TABLE " + tbl + " (id BIGINT PRIMARY KEY, name VARCHAR(32), age INT)"); err != nil {
 		t.Fatal(err)
 	}
-	if _, err := e.Bare.Exec("INSERT INTO "+tbl+" VALUES (1, 'test', 5), (2, 'b', 6)"); err != nil {
+	if _, err := e.Bare.Exec("INSERT INTO " + tbl + " VALUES (1, 'test', 5), (2, 'b', 6)"); err != nil {
 		t.Fatal(err)
 	}
 	before := e.Srv.Snapshot(Schema, tbl)
